@@ -4,6 +4,8 @@
  *    M id size / F id      allocation made / released by pixman     (harness/life_alloc.c, --wrap)
  *    R img rc / U img rc f pixman_image_ref / pixman_image_unref reported by the hook (count after, freed)
  *    D img data            the destroy callback ran
+ * Glyph cache: gcreate (create + freeze), ginsert / gbad (an insert whose private copy cannot be made), glookup,
+ * gcomp (composite_glyphs / _no_mask with every present glyph), gremove, gthaw (thaw + freeze), gdestroy.
  * img is the pool slot of the image (0: an image that is not in the pool, e.g. a glyph-cache copy).
  * The driver never judges; the script comes from the specification, which knows which slots are alive.
  *
@@ -18,7 +20,7 @@
 static pixman_image_t *img[NSLOT + 1];
 static uint32_t ext_buf[NSLOT + 1][64];		/* caller-owned pixel buffers ("bitsx") */
 static pixman_glyph_cache_t *cache;
-static pixman_image_t *scratch;
+static pixman_image_t *scratch, *solid;
 static volatile uint32_t sink_word;
 
 static int
@@ -187,7 +189,9 @@ warm_up (void)
 {
     /* everything pixman allocates once per process (implementations, ...) happens here, unrecorded */
     int k;
+    pixman_color_t white = { 0xffff, 0xffff, 0xffff, 0xffff };
     scratch = pixman_image_create_bits (PIXMAN_a8r8g8b8, 2, 2, NULL, 0);
+    solid = pixman_image_create_solid_fill (&white);
     for (k = 1; k <= 6; k++)
     {
 	pixman_image_t *s = do_create (1, k, 0);
@@ -198,7 +202,11 @@ warm_up (void)
     pixman_glyph_cache_freeze (cache);
     {
 	pixman_image_t *s = do_create (1, 1, 0);
-	pixman_glyph_cache_insert (cache, (void *)0x100, (void *)1, 0, 0, s);
+	pixman_glyph_t g1;
+	g1.x = 0; g1.y = 0;
+	g1.glyph = pixman_glyph_cache_insert (cache, (void *)0x100, (void *)1, 0, 0, s);
+	pixman_composite_glyphs (PIXMAN_OP_OVER, solid, scratch, PIXMAN_a8, 0, 0, 0, 0, 0, 0, 2, 2, cache, 1, &g1);
+	pixman_composite_glyphs_no_mask (PIXMAN_OP_OVER, solid, scratch, 0, 0, 0, 0, cache, 1, &g1);
 	pixman_glyph_cache_remove (cache, (void *)0x100, (void *)1);
 	pixman_image_unref (s);
     }
@@ -231,8 +239,7 @@ main (int argc, char **argv)
 	    if (fscanf (in, "%127s", name) != 1) return 3;
 	    memset (img, 0, sizeof img);
 	    la_reset ();
-	    cache = pixman_glyph_cache_create ();
-	    pixman_glyph_cache_freeze (cache);
+	    cache = NULL;	/* the script creates and destroys the glyph cache (gcreate / gdestroy) */
 	    vt_reset (name);
 	    continue;
 	}
@@ -241,12 +248,6 @@ main (int argc, char **argv)
 	    vt_begin ("End");
 	    vt_int ("pending", la_nsub);	/* sub-events recorded outside any call: there are none */
 	    vt_end ();
-	    if (cache)
-	    {
-		pixman_glyph_cache_thaw (cache);
-		pixman_glyph_cache_destroy (cache);
-		cache = NULL;
-	    }
 	    continue;
 	}
 	if (fscanf (in, "%d %d %d %d", &i, &j, &v, &cv) != 4) return 3;
@@ -307,8 +308,76 @@ main (int argc, char **argv)
 	}
 	else if (!strcmp (op, "ginsert"))
 	{
+	    /* cv = 1: a zero-size image is inserted instead of the pool image (the copy has no pixel buffer) */
+	    pixman_image_t *arg = cv == 1 ? pixman_image_create_bits (PIXMAN_a8, 0, 0, NULL, 0) : img[i];
 	    la_on = 1;
-	    ret = pixman_glyph_cache_insert (cache, (void *)0x100, (void *)(intptr_t)j, 1, 1, img[i]) != NULL;
+	    ret = pixman_glyph_cache_insert (cache, (void *)0x100, (void *)(intptr_t)j, 1, 1, arg) != NULL;
+	    la_on = 0;
+	    if (cv == 1)
+		pixman_image_unref (arg);
+	}
+	else if (!strcmp (op, "gbad"))
+	{
+	    /* an image the cache cannot copy: width * bpp overflows, so creating the private copy fails */
+	    static uint32_t one_pixel[4];
+	    pixman_image_t *wide = pixman_image_create_bits (PIXMAN_a8r8g8b8, 1 << 26, 1, one_pixel, 4);
+	    if (!wide) return 3;
+	    la_on = 1;
+	    ret = pixman_glyph_cache_insert (cache, (void *)0x100, (void *)(intptr_t)j, 0, 0, wide) != NULL;
+	    la_on = 0;
+	    pixman_image_unref (wide);
+	}
+	else if (!strcmp (op, "gcreate"))
+	{
+	    la_on = 1;
+	    cache = pixman_glyph_cache_create ();
+	    if (cache)
+		pixman_glyph_cache_freeze (cache);
+	    la_on = 0;
+	    ret = cache != NULL;
+	}
+	else if (!strcmp (op, "gdestroy"))
+	{
+	    la_on = 1;
+	    pixman_glyph_cache_thaw (cache);
+	    pixman_glyph_cache_destroy (cache);
+	    la_on = 0;
+	    cache = NULL;
+	}
+	else if (!strcmp (op, "gthaw"))
+	{
+	    la_on = 1;
+	    pixman_glyph_cache_thaw (cache);	/* may evict */
+	    pixman_glyph_cache_freeze (cache);
+	    la_on = 0;
+	}
+	else if (!strcmp (op, "glookup"))
+	{
+	    la_on = 1;
+	    ret = pixman_glyph_cache_lookup (cache, (void *)0x100, (void *)(intptr_t)j) != NULL;
+	    la_on = 0;
+	}
+	else if (!strcmp (op, "gcomp"))
+	{
+	    /* draw every glyph the cache reports for the keys 1..NSLOT (v = 0: through a mask, 1: directly) */
+	    pixman_glyph_t gl[NSLOT];
+	    int k, n = 0;
+	    for (k = 1; k <= NSLOT; k++)
+	    {
+		const void *g = pixman_glyph_cache_lookup (cache, (void *)0x100, (void *)(intptr_t)k);
+		if (g)
+		{
+		    gl[n].x = 1 + n;
+		    gl[n].y = 1;
+		    gl[n].glyph = g;
+		    n++;
+		}
+	    }
+	    la_on = 1;
+	    if (v == 0)
+		pixman_composite_glyphs (PIXMAN_OP_OVER, solid, scratch, PIXMAN_a8, 0, 0, 0, 0, 0, 0, 2, 2, cache, n, gl);
+	    else
+		pixman_composite_glyphs_no_mask (PIXMAN_OP_OVER, solid, scratch, 0, 0, 0, 0, cache, n, gl);
 	    la_on = 0;
 	}
 	else if (!strcmp (op, "gremove"))
